@@ -29,6 +29,9 @@ type ProtoScenario struct {
 	Faulted bool `json:"faulted"`
 	// Shutdown: after everything went quiet a controller calls Shutdown and the serving call must return.
 	Shutdown bool `json:"shutdown"`
+	// ShutdownAfterEnters > 0: Shutdown is (also) called as soon as every client's
+	// connection has been accepted and that many handler invocations have begun.
+	ShutdownAfterEnters int `json:"shutdown_after_enters,omitempty"`
 	// Probe: an additional well-behaved connection issuing GetInfo calls throughout.
 	Probe int `json:"probe,omitempty"`
 
@@ -43,6 +46,14 @@ func (s *ProtoScenario) Setup(k *sim.Kernel) {
 	k.Spawn("serve", serveTask(svc, s.Service, context.Background()))
 	for i, c := range s.Clients {
 		k.Spawn(sf("client%d", i), rawClientTask(i, s.Service, c))
+	}
+	if s.ShutdownAfterEnters > 0 {
+		network, addr := splitAddr(s.Service.Address)
+		k.Spawn("early-shutdown", func() {
+			awaitTriggers(sf("accepted:%d,ev:h.enter:%d", len(s.Clients), s.ShutdownAfterEnters), network, addr)
+			sim.Rec("shutdown.call", "early")
+			svc.Shutdown()
+		})
 	}
 	if s.Shutdown {
 		k.Spawn("controller", func() {
